@@ -419,6 +419,10 @@ func runC11(env *Env) {
 	var wg sync.WaitGroup
 	sem := make(chan struct{}, 24)
 	for i := range jobs {
+		if env.GenOnly {
+			res[i] = "-"
+			continue
+		}
 		wg.Add(1)
 		sem <- struct{}{}
 		go func(i int) {
